@@ -17,6 +17,7 @@ import (
 	"io"
 	"net"
 	"net/http"
+	"net/url"
 	"os"
 	"path/filepath"
 	"runtime"
@@ -676,7 +677,9 @@ func execCluster(run *core.Run, p *plan) {
 			run.Fail("no-progress-after-heal", "shrink", "no leader is reported by the healthy cluster before a meta node is removed\n%s", c.nodeStates())
 			return
 		}
-		resp, err := c.hc.Post(fmt.Sprintf("http://%s/remove?httpAddr=%s", via.http, victim.http), "application/x-www-form-urlencoded", nil)
+		// (the address travels as a form in the body: the redirect of a follower
+		// names the leader's /remove without the query, and a 307 re-sends the body)
+		resp, err := c.hc.PostForm(fmt.Sprintf("http://%s/remove", via.http), url.Values{"httpAddr": {victim.http}})
 		if err != nil {
 			run.Fail("meta-node-removal-failed", "", "remove of meta node %d asked of meta node %d: %v\n%s", victim.id, via.id, err, c.nodeStates())
 			return
